@@ -12,6 +12,7 @@ import (
 	"github.com/apmckinlay/gsuneido/util/dbg"
 	"github.com/apmckinlay/gsuneido/util/exit"
 	"github.com/apmckinlay/gsuneido/util/queue"
+	"github.com/apmckinlay/gsuneido/util/verif"
 	"golang.org/x/time/rate"
 )
 
@@ -304,6 +305,9 @@ func checker(ck *Check, pq *queue.PriorityQueue, mergeChan chan todo, stopTicker
 				close(mergeChan)
 			}
 			return
+		}
+		if verif.On {
+			verif.Gate("ck.dispatch", msg)
 		}
 		ck.dispatch(msg, mergeChan)
 	}
